@@ -272,7 +272,7 @@ class Mon(object):
             # (with io types: only the variables of one io class are folded into the object-typed variable, which
             # then carries that io type - two fields of one variable cannot have different io types)
             self._struct_wanted = (STRUCT is not None and parse and kind.startswith('dt')
-                                   and not sd.get('struct') and
+                                   and not sd.get('struct') and not sd.get('nostruct') and
                                    STRUCT.random() < (STRUCT_P * 2 if sd.get('io') else STRUCT_P))
 
     def _refused_declaration(self, h):
@@ -696,7 +696,14 @@ class Mon(object):
 
     def pastify(self):
         self._pastified = True
-        return self._do('pastify')
+        r = self._do('pastify')
+        if HISTORY is not None and HISTORY.random() < 0.1:
+            # pastify() once more: a pastified specification has no future operator, and "pastify() does not change
+            # the meaning of a specification that has no future operator" (an exception is the workload's to report)
+            REC.counts['history:second-pastify'] += 1
+            LAST_HISTORY.append('object #%d: pastify() was called a second time on the pastified specification' % self.oid)
+            self._do('pastify')
+        return r
 
     def reset(self):
         return self._do('reset')
